@@ -244,6 +244,10 @@ func GetKeyFields(fields []string) (allFields []string, nonRootFields []string) 
 	nonRootFields = make([]string, 0, len(fields))
 
 	for _, field := range fields {
+		if field == "" {
+			// an empty name cannot be a key field (and has no first byte to look at)
+			continue
+		}
 		switch {
 		case field[0] == RootPrefixFirstChar && strings.HasPrefix(field, RootPrefix):
 			// If the field starts with "root.", add it to rootFields
